@@ -17,9 +17,15 @@
                               blank nodes) against the graph `g` and renders it, else renders the flat plan
 
   What is proved: for every graph of the fragment and every choice, the denotation of what the writer
-  produces is the graph up to blank-node renaming (`write_denote`); more generally the denotation of
-  every well-formed plan is exactly its intended triples (`denote_render`), and every graph of the
-  fragment has a well-formed plan (`flatPlan_ok`).
+  produces is the graph up to blank-node renaming (`write_denote`); the same for the switch-driven writer
+  `writeAuto` of Spec/RdfXmlWriter.lean under every switch setting (`writeAuto_denote`); more generally the
+  denotation of every well-formed plan is exactly its intended triples (`denote_render`), and every graph
+  of the fragment has a well-formed plan (`flatPlan_ok`).  Well-definedness: attribute order does not
+  influence what `denoteDoc` reads from an element (`attr_order`, at the level of the attribute record
+  only: that the triples are then a permutation is not proved), insignificant white space is ignored
+  (`ws_*`).  Props/C09Rfc.lean discharges the IRI side condition for RFC 3986 resolution,
+  Props/C09Facts.lean ties the reserved-name sets and rdf:ID validity to the Go source (T1/T2),
+  Props/C09Findings.lean records what the grammar says on the witnesses of the five decoder defects.
 
   What ties this to Go: go/cmd/c09 serialises the trees produced by `renderDoc` (and the W3C test
   documents parsed into trees) to XML text with random prefixes, references, attribute order and
@@ -117,6 +123,20 @@ theorem ws_collKids (rs : Str → Str → Str) (env : Env) (s : Term BN) (p : St
     (hws : ws.all isWs = true) (ks : List Node) (st : St) :
     collKids rs env s p (.text ws :: ks) st = collKids rs env s p ks st := by
   simp only [collKids, hws, if_true]
+
+/-! ### well-definedness: attribute order
+
+  XML attributes are unordered. `denoteDoc` reads an element's attributes through `info`; for an attribute
+  list with pairwise distinct names every permutation gives the same named attributes and a permutation
+  of the property attributes (which only permutes the triples they produce). -/
+
+theorem attr_order (as bs : List Attr) (h : as.Perm bs) (hn : (as.map attrKey).Nodup) :
+    (info as).base = (info bs).base ∧ (info as).lang = (info bs).lang ∧ (info as).id = (info bs).id ∧
+    (info as).about = (info bs).about ∧ (info as).nodeID = (info bs).nodeID ∧
+    (info as).resource = (info bs).resource ∧ (info as).datatype = (info bs).datatype ∧
+    (info as).parseType = (info bs).parseType ∧ (info as).props.Perm (info bs).props ∧
+    (info as).bad = (info bs).bad ∧ (info as).unsup = (info bs).unsup :=
+  info_perm h hn
 
 /-! ### non-vacuity -/
 
